@@ -55,6 +55,11 @@ namespace nmtools::array::simd
 
         static constexpr inline auto bit_width  = meta::bit_width_v<simd_tag_t>;
         static constexpr inline auto n_elements = bit_width / (sizeof(T) * 8);
+
+        // overflow of a signed integer lane is undefined, while the scalar functor static_cast<T>(t + u) wraps around:
+        // add / sub / mul / fmadd work on the unsigned lanes of the same width (same bits, defined wrap-around);
+        // for floating point and unsigned T this is vector_type itself
+        using wrap_vector_type = vector_type_t<n_bit,meta::make_unsigned_t<T>>;
         NMTOOLS_ALWAYS_INLINE
         static auto loadu(const data_t* inp_ptr) noexcept
         {
@@ -188,7 +193,7 @@ namespace nmtools::array::simd
         template <typename packed_t> NMTOOLS_ALWAYS_INLINE
         static auto mul(packed_t x, packed_t y) noexcept
         {
-            return x * y;
+            return (packed_t)((wrap_vector_type)x * (wrap_vector_type)y);
         }
 
         template <typename packed_t, typename mask_t> NMTOOLS_ALWAYS_INLINE
@@ -200,13 +205,13 @@ namespace nmtools::array::simd
         template <typename packed_t> NMTOOLS_ALWAYS_INLINE
         static auto add(packed_t x, packed_t y) noexcept
         {
-            return x + y;
+            return (packed_t)((wrap_vector_type)x + (wrap_vector_type)y);
         }
 
         template <typename packed_t> NMTOOLS_ALWAYS_INLINE
         static auto sub(packed_t x, packed_t y) noexcept
         {
-            return x - y;
+            return (packed_t)((wrap_vector_type)x - (wrap_vector_type)y);
         }
 
         template <typename packed_t> NMTOOLS_ALWAYS_INLINE
@@ -248,7 +253,7 @@ namespace nmtools::array::simd
         template <typename packed_t> NMTOOLS_ALWAYS_INLINE
         static auto fmadd(packed_t a, packed_t b, packed_t c) noexcept
         {
-            return (a * b) + c;
+            return (packed_t)(((wrap_vector_type)a * (wrap_vector_type)b) + (wrap_vector_type)c);
         }
 
         #undef NMTOOLS_SIMD_VECTOR_BUILTIN
